@@ -39,6 +39,14 @@ CLAIMED = {
    text="Seeded interleavings of PRF / PermutationFromPRF evaluations from a pool of (key, counter, type) triples over 2..4 SimpleEvaluator instances sharing keys, with unrelated Random draws between calls and instance restarts; model = memo table (same triple => same value at every instance, in every order, before and after restart). Every value is a valid encoding (lengths, zero padding bits, true permutations); unrelated triples give different, bitwise-unrelated values; PRNG replays from its seed; bounded draws in range and chi-square uniform.",
    note="Trusts: the memo table as reference (first observed value); statistical thresholds with false-alarm probability < e^-40.",
    technique="deterministic simulation of interleaved evaluator instances with restarts; memo-table reference model"),
+ "C04": dict(engine="trisim", category="exploration", design_ref="§4 C04",
+   text="Over compiler pipeline outputs (all inline modes, programs biased to OT/mixed multiply, A2B/B2A, sort/permutation, repeatedly inlined Call/Iterate bodies) and generated inlined graphs with Random/PRF/annotated nodes: PRF counters of the final main graph pairwise distinct; the optimiser's old->new mapping is injective on randomising/PRF nodes, keeps their operation, every such output node has exactly one preimage; PRF keys descend from Random/Input, never a constant; and, as invariants of three-party simulated runs, no two distinct nodes query the same (key, counter) at any party and a second tape changes every Random draw.",
+   note="Trusts: the returned ContextMappings as the identification of nodes across the optimiser; structural key-provenance walk limited to NOP/tuple plumbing.",
+   technique="invariants monitored during deterministic three-party simulation (PRF query log, random-draw log) plus structural checks over the seeded compile/optimise search"),
+ "C06": dict(engine="trisim", category="exploration", design_ref="§4 C06",
+   text="Twin runs: the unoptimised context U (compiler output before the last optimisation round, or a generated inlined graph decorated with Random/PRF nodes, Send-annotated NOPs, duplicates, foldable constants, tuple plumbing, dangling nodes) and O = optimize_context(U) are executed by the three-party simulator under the same inputs, junk, schedule policy and tapes addressed by original node identity through the returned mapping. Every mapped node carries the same value at every party, outputs are equal, O delivers only messages U delivers, input nodes are identical in number/order/type/name, and every recorded type equals the type re-derived after a serde reload.",
+   note="Trusts: addressed tapes (random draws keyed by original node identity) as the meaning of 'the same random draws'; the stub party runtime (see C02).",
+   technique="deterministic three-party simulation, differential twin runs (unoptimised vs optimised) under replayed tapes, junk and schedules"),
 }
 
 NOT_YET = {
